@@ -130,6 +130,7 @@ structure Party where
   smpI : Id := 0
   smpJ : Id := 0
   smpMatch : Bool := false
+  theirPub : Option Nat := none  -- c.TheirPublicKey: whose long-term key the last completed AKE authenticated
 deriving DecidableEq, Repr
 
 /-- what one `Receive` returns -/
@@ -532,7 +533,7 @@ def Party.recv (p : Party) : In → R (Party × Out)
       | none => .ok (p, errOut)
       | some (yr, kid) =>
         if yr = y ∧ p.gy = some yr then
-          let p := { p with theirKeyId := kid, theirCur := xr, theirLast := none }
+          let p := { p with theirKeyId := kid, theirCur := xr, theirLast := none, theirPub := some (1 - p.side) }
           let (p, m) := p.genSig
           .ok ({ p with auth := .none, st := .enc }, { send := [m], change := chNewKeys })
         else .ok (p, errOut)
@@ -543,7 +544,8 @@ def Party.recv (p : Party) : In → R (Party × Out)
     | none => .ok (p, errOut)
     | some (ys, xs, kid) =>
       if p.gx = some xs ∧ p.gy = some ys then
-        .ok ({ p with theirKeyId := kid, theirCur := ys, theirLast := none, auth := .none, st := .enc },
+        .ok ({ p with theirKeyId := kid, theirCur := ys, theirLast := none, auth := .none, st := .enc,
+                      theirPub := some (1 - p.side) },
              { change := chNewKeys })
       else .ok (p, errOut)
   | .data ok ignoreErr skid rkid g =>
@@ -558,6 +560,43 @@ def Party.recv (p : Party) : In → R (Party × Out)
       | some d =>
         if s.myDH = d.rdh ∧ s.theirDH = d.sdh then p.acceptData i d
         else .ok (p, { enc := true, err := !ignoreErr })
+
+/-! ### package constants -/
+
+def queryMessage : Bytes := [63, 79, 84, 82, 118, 50, 63]                       -- "?OTRv2?"
+def errorPrefix : Bytes := [63, 79, 84, 82, 32, 69, 114, 114, 111, 114, 58]    -- "?OTR Error:"
+/-- NoChange, NewKeys, SMPSecretNeeded, SMPComplete, SMPFailed, ConversationEnded -/
+def securityChanges : List Nat := [0, chNewKeys, chSecretNeeded, chComplete, chFailed, chEnded]
+
+/-! ### long-term keys on the wire (`PublicKey.Parse`, `PrivateKey.Parse`) -/
+
+/-- `PublicKey.Parse`: u16 type 0, then the MPIs p, q, g, y; returns them and the rest -/
+def parsePub (b : Bytes) : Option (List Nat × Bytes) :=
+  match getU16 b with
+  | none => none
+  | some (t, b0) =>
+    if t ≠ 0 then none else
+    match getMPI b0 with
+    | none => none
+    | some (p, b1) =>
+    match getMPI b1 with
+    | none => none
+    | some (q, b2) =>
+    match getMPI b2 with
+    | none => none
+    | some (g, b3) =>
+    match getMPI b3 with
+    | none => none
+    | some (y, b4) => some ([p, q, g, y], b4)
+
+/-- `PrivateKey.Parse`: the public key, then the MPI x -/
+def parsePriv (b : Bytes) : Option (List Nat × Bytes) :=
+  match parsePub b with
+  | none => none
+  | some (k, r) =>
+    match getMPI r with
+    | none => none
+    | some (x, r') => some (k ++ [x], r')
 
 /-! ### byte-level front end of `Receive` -/
 
@@ -785,6 +824,10 @@ def World.run (w : World) : List Step → List (Option Obs)
     match w.step s with
     | .panic => [none]
     | .ok (w, o) => some o :: w.run ss
+
+/-- what the public fields say after a script: `SSID` equal on both sides; `TheirPublicKey` is the peer's key -/
+def World.summary (w : World) : Bool × Bool × Bool :=
+  (w.a.ssid == w.b.ssid, w.a.theirPub == some 1, w.b.theirPub == some 0)
 
 /-- the world after a script (`none` if a step panicked) -/
 def World.runTo (w : World) : List Step → Option World
